@@ -82,6 +82,11 @@ pub fn judge(sc: &S1Scenario, obs: &Obs) -> Judged {
 
     // ---------------------------------------------------------------- C05: termination, deadlock
     match &obs.abort {
+        Some(AbortReason::Budget) if g.tail && !(obs.panic_fired || obs.stats.calm_started_at_step.is_some()) => {
+            // an effectively unbounded model and no stop reason has occurred yet (e.g. the worker
+            // that would panic was starved by the schedule): nothing to judge
+            c.inc("probe_tail_budget_without_stop_reason");
+        }
         Some(AbortReason::Budget) => {
             v.push(Violation::new(
                 "C05",
@@ -159,6 +164,9 @@ pub fn judge(sc: &S1Scenario, obs: &Obs) -> Judged {
         }
     }
 
+    if obs.assert_ok_before_done && exhaustive_strategy(sc.strategy) {
+        v.push(Violation::new("C02", "assert-before-done", "assert_properties() returned normally while is_done() was still false".to_string()));
+    }
     // ---------------------------------------------------------------- discoveries
     let disc = match &obs.discoveries {
         Ok(d) => Some(d),
